@@ -309,7 +309,7 @@ CHECKS["C07"] = dict(
          "NETWORK PARTITIONS between live nodes (proxied links: every directed raft link is a TCP forwarder of the harness that can be cut and healed; fault kinds "
          "isolate-leader - held until the majority side has a new leader, the old one is never told since no CheckQuorum is configured -, isolate-follower, split "
          "(one follower <-> leader link), partition-leader-minority, isolate-follower-snap; clients on all nodes incl. one read-only client pinned to every node, "
-         "1.5 s per-command deadline = unknown outcome, a read answered by a cut-off node must linearize); "
+         "1.5 s per-command deadline (pinned reads 0.8 s) = unknown outcome, a read answered by a cut-off node must linearize); "
          "per-key linearizability by porcupine (commands with broken connections = unknown outcome), a read of every key through every node at quiescence, process liveness.",
     note="Level: proof for replica agreement on the deterministic fragment of the model, for the apply pipeline and the real-time order of the abstract protocol; exploration / fault enumeration on real processes for everything "
          "end to end (no proof that etcd raft + rafthttp + goroutines implement the abstract protocol; C15 ties raft.RawNode by lock-step). Workload restricted to "
